@@ -77,3 +77,55 @@ func VerifC17_Reader() {
 	}
 	verifrt.Reach("memory-checked")
 }
+
+// failProc: a consumer (the staging store) that fails at its f-th call
+type failProc struct {
+	calls, failAt, after int
+}
+
+func (p *failProc) step() error {
+	i := p.calls
+	p.calls++
+	if i == p.failAt {
+		return verifrt.NewError("store: injected write failure")
+	}
+	if i > p.failAt {
+		p.after++
+	}
+	return nil
+}
+func (p *failProc) StartUpdateCrl(m *CRLMetaInfo) error                            { return p.step() }
+func (p *failProc) InsertRevokedCertificate(e *CRLEntry) error                     { return p.step() }
+func (p *failProc) UpdateExtendedMetaInfo(i *ExtendedCRLMetaInfo) error            { return p.step() }
+func (p *failProc) UpdateSignatureCertificate(e *core.CertificateChainEntry) error { return nil }
+
+// VerifC08_ReaderPropagates: whichever call of the consumer fails (start, the i-th entry, the
+// extended meta information) while a well-formed CRL is streamed into the staging store, ReadCRL
+// reports an error and no result, and hands nothing more to the consumer - a partially staged list
+// is never reported as read (the repository then keeps the previous list: C08).
+func VerifC08_ReaderPropagates() {
+	s := chooseShape()
+	installModels(16)
+	theHash.off = true
+	verifrt.Override("encoding/asn1.Unmarshal", leanUnmarshal)
+	fill = -1
+	p := build(s)
+	algOID = oidTable[0]
+	if s.hasExt {
+		extsModel = []pkix.Extension{{Id: oidAKI, Value: sym("extval0", 4)}}
+	} else {
+		extsModel = nil
+	}
+	verifrt.Assume(!s.hasVersion || p.versionByte == 1)
+	if s.hasExt && !s.hasVersion {
+		return
+	}
+	path := verifrt.PutFile("crl.der", p.file, len(p.file))
+	proc := &failProc{failAt: verifrt.Choose(s.k + 2)}
+	res, err := StreamingCRLFileReader{}.ReadCRL(proc, path)
+	verifrt.Assert(proc.calls > proc.failAt, "harness: the failing call is reached")
+	verifrt.Assert(err != nil, "a failing consumer call makes ReadCRL fail")
+	verifrt.Assert(res == nil, "no result for a partially consumed CRL")
+	verifrt.Assert(proc.after == 0, "nothing is handed to the consumer after its failure")
+	verifrt.Reach("consumer-failure-propagated")
+}
